@@ -501,7 +501,7 @@ class NeedDraw(Exception):
         self.domain = domain
 
 
-def explore(run_with_script, limit=20000):
+def explore(run_with_script, limit=4000):
     """depth-first enumeration of every sequence of random draws the code can ask for"""
     stack = [()]
     out = []
